@@ -144,6 +144,10 @@ type Session struct {
 
 	// Metadata
 	Metadata map[string]string `json:"metadata,omitempty"`
+
+	// terminating is set by Manager.TerminateSession (under the manager's lock) when a
+	// termination has begun and is never cleared: unlike State, no other call writes it
+	terminating bool
 }
 
 // AuthMethod represents the authentication method used.
